@@ -13,7 +13,7 @@ func init() {
 	register("C04",
 		"Structural necessary conditions of C04 decided from /repo's SSA: (modes) the tree-entry loop classifies an entry by (mode & 0170000) against git's constants 040000 tree, 0160000 gitlink, 0120000 symlink, everything else a blob; (arms) on every path through one loop iteration exactly one kind counter is bumped (dirs via the subtree's expansion, files, links, submodules), the path-depth and path-length maxima are each updated exactly once, a blob's size is added exactly where its file is counted, each update sits in the arm of its own mode constant, and the gitlink arm performs no object lookup — deferred listeners are credited to the branch that registers them; (combine) the seven per-tree quantities receive exactly the update edges of the recursive expansion (ADD per occurrence, MAX for depth/length, the tree itself counted at record creation) and nothing else; (maxima) each of the seven 'biggest checkout' metrics is the MAX of its own per-tree quantity, executed unconditionally once per finalised tree. Not decided: the numeric equality on concrete tree DAGs.",
 		[]string{"field-based heap model", "git's object-mode constants", "go/ssa models the source faithfully"},
-		ruleC04Modes, ruleC04Arms, ruleC04Combine, ruleC04Maxima, ruleC04FinalOnly, ruleC04Descend)
+		ruleC04Modes, ruleC04Arms, ruleC04Combine, ruleC04Maxima, ruleC04FinalOnly, ruleC04Descend, ruleC04Roots, ruleC04NameBytes)
 }
 
 const (
@@ -321,11 +321,11 @@ func ruleC04Descend(c *Ctx) {
 	// each of the five sums and the depth exactly once per call; the two length updates are alternatives
 	for k := range want {
 		k := k
-		ec := c.effectCounter(func(ed *effEdge) bool { return ed.Key() == k && ed.Fn == f }, false)
-		r := ec.function(f)
 		if strings.HasPrefix(k, "T:max_path_length") {
 			continue
 		}
+		ec := c.effectCounter(func(ed *effEdge) bool { return ed.Key() == k && ed.Fn == f }, false)
+		r := ec.function(f)
 		if r.Min != 1 || r.Max != 1 {
 			c.violate("C04.descend", "once:"+k, f.Pos(), name, fmt.Sprintf("`%s` executes %s times per combined subtree (must be exactly once)", k, rangeStr(r)))
 			ok = false
@@ -337,8 +337,8 @@ func ruleC04Descend(c *Ctx) {
 		ok = false
 	}
 	// guards of the two alternatives
-	childHasPath := func(b *ssa.BasicBlock) (known, truth bool) {
-		for _, fct := range factsAt(b) {
+	childHasPath := func(facts []condFact) (known, truth bool) {
+		for _, fct := range facts {
 			cond, t := normCond(fct.Cond, fct.Truth)
 			cmp, isCmp2 := cond.(*ssa.BinOp)
 			if !isCmp2 {
@@ -371,8 +371,16 @@ func ruleC04Descend(c *Ctx) {
 	}
 	long := got["T:max_path_length <-MAX {ADD(T:max_path_length,const:1,len(F:git.TreeEntry.Name))}"]
 	short := got["T:max_path_length <-MAX {len(F:git.TreeEntry.Name)}"]
-	kl, tl := childHasPath(long.Site.Block())
-	ks, ts := childHasPath(short.Site.Block())
+	// the guard of an alternative is known where it is chosen: at the update
+	// site itself, or in the block the operand flows in from
+	guardFacts := func(ed *effEdge) []condFact {
+		if t := ed.Terms[0]; ed.Alternatives > 1 && t.Origin != nil && t.OriginTo != nil {
+			return factsOnEdge(t.Origin, t.OriginTo)
+		}
+		return factsAt(ed.Site.Block())
+	}
+	kl, tl := childHasPath(guardFacts(long))
+	ks, ts := childHasPath(guardFacts(short))
 	if kl && tl && ks && !ts {
 		c.hold("C04.descend", "path-length-guard", posOf(long.Site), "name+1+child length iff the child has a non-empty path; the bare name length otherwise")
 	} else {
@@ -382,4 +390,22 @@ func ruleC04Descend(c *Ctx) {
 	if ok {
 		c.hold("C04.descend", "edges", f.Pos(), fmt.Sprintf("%s performs exactly the %d combine updates, once each", name, len(want)))
 	}
+}
+
+// ruleC04Roots: trees reached directly from references or ROOT arguments are
+// part of the quantifier: every selected root must be walked (C01.roots and
+// the collect clause, reported under C04's name).
+func ruleC04Roots(c *Ctx) {
+	c.RuleAlias = map[string]string{"C01.roots": "C04.roots"}
+	defer func() { c.RuleAlias = nil }()
+	ruleC01Roots(c)
+	c.checkCollect("C04.roots")
+}
+
+// ruleC04NameBytes: path length is measured in bytes of the entry names as
+// stored in the tree (C16.grammar tree:name-exact under C04's name).
+func ruleC04NameBytes(c *Ctx) {
+	c.RuleAlias = map[string]string{"C16.grammar": "C04.arms"}
+	defer func() { c.RuleAlias = nil }()
+	c.checkTreeEntryExact()
 }
